@@ -198,7 +198,23 @@ func c17FormatData(format string, nrec int) []byte {
 	return b.Bytes()
 }
 
-func (c17) Gen(rng *rand.Rand, tier string, emit func(string)) {
+func (c17) Gen(rng *rand.Rand, tier string, emit0 func(string)) {
+	// The `kseq` cases (cheap to run, long lines: the bytes zlib delivers are part of the line) are run last: the check
+	// reads the output of its parallel harness processes one process after the other, a process whose output no longer
+	// fits in its buffer waits for its turn - the expensive cases must come before that point.
+	var kseqLast []string
+	emit := func(l string) {
+		if strings.HasPrefix(l, "kseq ") {
+			kseqLast = append(kseqLast, l)
+		} else {
+			emit0(l)
+		}
+	}
+	defer func() {
+		for _, l := range kseqLast {
+			emit0(l)
+		}
+	}()
 	// corpus
 	for _, e := range []string{"eof", "ueof", "other"} {
 		emit("chunk b=8 p=3 3e610a61630a3e620a67670a " + e)
@@ -448,10 +464,23 @@ func (c17) Exec(c string) (string, []Fail) {
 		res := guardT(5*time.Second, func() string {
 			r := &faultReader{data: data, piece: p, final: final, with: p%2 == 0}
 			ch := obiformats.ReadSeqFileChunk("src", r, make([]byte, b), obiformats.EndOfLastFastaEntry)
-			for c := range ch {
-				chunks = append(chunks, hx(c.Raw.Bytes()))
+			// The consumer polls: when the producer dies in log.Fatalf (fatalSeen is set after its last send has been
+			// received here), this goroutine sees it itself, after every chunk sent has been appended, and returns at once
+			// (no need to wait for guardT's 50 ms settling delay, which dominated the run time of these cases).
+			for {
+				select {
+				case c, open := <-ch:
+					if !open {
+						return "ok"
+					}
+					chunks = append(chunks, hx(c.Raw.Bytes()))
+				default:
+					if fatalSeen.Load() {
+						return "fatal"
+					}
+					time.Sleep(20 * time.Microsecond)
+				}
 			}
-			return "ok"
 		})
 		var fails []Fail
 		if f[4] != "eof" && res != "fatal" {
